@@ -166,8 +166,8 @@ def formulas(ops, arity, depth, letters=('p', 'q')):
                 new += [('op', op, (a, b)) for a in allf for b in allf]
         seen = set(allf)
         allf += [f for f in new if f not in seen]
-        if len(allf) > 4000:
-            allf = allf[:4000]
+        if len(allf) > 6000:
+            allf = allf[:6000]
             break
     return allf
 
@@ -182,7 +182,8 @@ def witness(sw, ss, lex, depth):
     "argument (premise |- conclusion) valid in the weaker semantics, invalid in the stronger one"
     from ..schema import fmt
     ops = [o for o in lex.truth_functional]
-    fs = formulas(ops, lex.arity, depth - 1 if depth > 1 else 1)
+    small = formulas(ops, lex.arity, 1)
+    fs = formulas(ops, lex.arity, depth)
     letters = ('p', 'q')
 
     def designated_sets(sem):
@@ -192,12 +193,11 @@ def witness(sw, ss, lex, depth):
             out[f] = frozenset(i for i, vs in enumerate(vals) if evalf(f, dict(zip(letters, vs)), sem) in sem.D)
         return out
     dw, ds = designated_sets(sw), designated_sets(ss)
+    allw, alls = len(sw.V) ** 2, len(ss.V) ** 2
     for c in fs:
-        # no premises
-        if len(dw[c]) == len(sw.V) ** 2 and len(ds[c]) != len(ss.V) ** 2:
+        if len(dw[c]) == allw and len(ds[c]) != alls:
             return f'|- {fmt(c)}'
-    for p in fs[:400]:
-        for c in fs[:400]:
-            if dw[p] <= dw[c] and not ds[p] <= ds[c]:
-                return f'{fmt(p)} |- {fmt(c)}'
+    for p, c in itertools.chain(((p, c) for p in fs for c in small), ((p, c) for p in small for c in fs)):
+        if dw[p] <= dw[c] and not ds[p] <= ds[c]:
+            return f'{fmt(p)} |- {fmt(c)}'
     return None
